@@ -59,6 +59,8 @@ type CompScenario struct {
 	// CbStop: stop | cancel | "" - issued from inside the callback of the first Reload(); the callback then waits until
 	// Run() has returned before it hands out the configuration, so that the reload's restart boots after the return
 	CbStop string `json:"cbStop,omitempty"`
+	// SlowPublish: the publication of the state Reloading to the state subscribers is delayed by 3 ms (see publishDelay)
+	SlowPublish bool `json:"slowPublish,omitempty"`
 }
 
 type compChild struct {
@@ -253,7 +255,11 @@ func runCompScenario(sc CompScenario) compResult {
 	if os.Getenv("VH_DEBUG") != "" {
 		lw = os.Stderr
 	}
-	runner, err := composite.NewRunner(cb, composite.WithLogHandler[supervisor.Runnable](slog.NewTextHandler(lw, &slog.HandlerOptions{Level: slog.LevelDebug})))
+	var lh slog.Handler = slog.NewTextHandler(lw, &slog.HandlerOptions{Level: slog.LevelDebug})
+	if sc.SlowPublish {
+		lh = publishDelay{lh, map[string]time.Duration{"Reloading": 3 * time.Millisecond}}
+	}
+	runner, err := composite.NewRunner(cb, composite.WithLogHandler[supervisor.Runnable](lh))
 	must(err)
 	runnerRef.Store(runner)
 	ctx, cancel := context.WithCancel(context.Background())
@@ -650,10 +656,26 @@ func genCompScenario(r interface {
 		sc.PreCancel = true
 		kind += "+precancel"
 	}
+	if !sc.Sequential && r.IntN(3) == 0 {
+		sc.SlowPublish = true // delayed publication of Reloading: see publishDelay
+	}
 	return sc, kind
 }
 
 var compCorpus = []CompScenario{
+	// a child fails while a Reload() has just changed the state: the subscribers see Reloading before Error
+	{Pool: []ChildSpec{{"a", "f", "wc", 0, 0}, {"b", "f", "wc", 0, 0}},
+		Configs: []CompConfig{{"ok", []CompEntry{{0, 1}, {1, 1}}}, {"ok", []CompEntry{{0, 2}, {1, 2}}}},
+		Ops:     []CompOp{{0, "reload"}, {1, "fail:0:e"}}, SlowPublish: true},
+	{Pool: []ChildSpec{{"a", "f", "wc", 0, 0}, {"b", "f", "r", 0, 0}},
+		Configs: []CompConfig{{"ok", []CompEntry{{0, 1}, {1, 1}}}, {"ok", []CompEntry{{1, 2}, {0, 2}}}},
+		Ops:     []CompOp{{0, "reload"}, {1, "fail:1:e"}}, SlowPublish: true},
+	{Pool: []ChildSpec{{"a", "f", "wc", 0, 0}},
+		Configs: []CompConfig{{"ok", []CompEntry{{0, 1}}}, {"ok", []CompEntry{{0, 2}}}},
+		Ops:     []CompOp{{0, "reload"}, {1, "stop"}}, SlowPublish: true},
+	{Pool: []ChildSpec{{"a", "f", "wc", 0, 0}},
+		Configs: []CompConfig{{"ok", []CompEntry{{0, 1}}}, {"ok", []CompEntry{{0, 2}}}},
+		Ops:     []CompOp{{0, "reload"}, {2, "fail:0:e"}}, SlowPublish: true},
 	// a Reload() while Run() is still booting: refused, Error; Run() starts the children, cannot enter Running and
 	// returns - every child it started must end
 	{Pool: []ChildSpec{{"a", "f", "wc", 0, 0}, {"b", "f", "wc", 0, 0}},
